@@ -1215,8 +1215,17 @@ func (e *Engine) scanMods(ms *modSet, fn *ssa.Function, blocks map[*ssa.BasicBlo
 					}
 					continue
 				}
-				// pointer arguments to local cells may be written by the callee
+				// pointer arguments to local cells may be written by the callee (unless its declared frame says otherwise)
+				declaredPure := false
+				if f := c.StaticCallee(); f != nil {
+					if ct := e.contractFor(shortName(f.String())); ct != nil && ct.HasMod && len(ct.Havoc) == 0 && !ct.Extern {
+						declaredPure = true
+					}
+				}
 				for _, a := range c.Args {
+					if declaredPure {
+						break
+					}
 					av := a
 					if mi, ok := av.(*ssa.MakeInterface); ok {
 						av = mi.X
@@ -1362,6 +1371,11 @@ func (e *Engine) applyMods(st *State, fr *Frame, ms *modSet, loop bool) {
 		e.havocAll(st)
 	}
 	for a := range ms.allocs {
+		if l, ok := fr.heapAllocs[a]; ok {
+			// a struct allocated in the heap arrays (escaping local): all of its fields may have been written
+			e.store(st, l, e.freshVal(st, l.T, "loop_obj"))
+			continue
+		}
 		if c, ok := fr.allocs[a]; ok {
 			if c.arr {
 				continue
